@@ -155,7 +155,14 @@ impl Covercrypt {
         mpk: &MasterPublicKey,
         encapsulation: &XEnc,
     ) -> Result<(Secret<32>, XEnc), Error> {
-        let (_ss, rights) = full_decaps(msk, encapsulation)?;
+        let (_ss, mut rights) = full_decaps(msk, encapsulation)?;
+        // Only the rights that can still be encrypted for are targeted again.
+        rights.retain(|r| mpk.publishes(r));
+        if rights.is_empty() {
+            return Err(Error::Kem(
+                "no right of this encapsulation can be encapsulated for anymore".to_string(),
+            ));
+        }
         primitives::encaps(
             &mut *self.rng.lock().expect("Mutex lock failed!"),
             mpk,
